@@ -275,6 +275,36 @@ def decodeItems {α : Type} (codec : Codec) : List (Bytes × α) → Except CErr
 def cmapAll (chain : Chain) (codec : Codec) : Except CErr (List (Nat × Nat)) :=
   decodeItems codec (allItemsFiles chain.reverse Gen.limits_MaxCMapMappings)
 
+/-! ## `Extract`: which parent a CMap stream gets (`usecmap`) -/
+
+/-- the `/UseCMap` entry of the stream dictionary: absent, a name (which is or is not the name of
+a predefined CMap), or a reference to an embedded CMap stream -/
+inductive UseCMapEntry where
+  | absent
+  | name (predefined : Bool)
+  | stream
+  deriving DecidableEq, Repr
+
+/-- the parent `Extract` installs -/
+inductive ParentRes where
+  | none        -- no parent (also: a name that is not a predefined CMap; the error is dropped)
+  | predefined  -- `Predefined(name)`
+  | embedded    -- the CMap extracted from the referenced stream
+  deriving DecidableEq, Repr
+
+/-- `Extract` (font/cmap/file.go): `if useCMap := dict["UseCMap"]; useCMap != nil { Decode(useCMap,
+Extract) } else if parentName != "" { Predefined(parentName) }`; `psName` says whether the
+PostScript body has a `usecmap` operator and whether its operand names a predefined CMap. -/
+def resolveParent (dict : UseCMapEntry) (psName : Option Bool) : ParentRes :=
+  match dict with
+  | .stream => .embedded
+  | .name true => .predefined
+  | .name false => .none
+  | .absent =>
+    match psName with
+    | some true => .predefined
+    | _ => .none
+
 /-! ## ToUnicode CMaps -/
 
 /-- text as `[]rune(s)` -/
